@@ -8,7 +8,8 @@ import container as C
 RULE = ("histories as C03 with payloads of differing sizes (every later block moves on remove/replace), cp1252 comments up to 255 "
         "bytes, start files with opaque blocks; a python reference dict type->(payload, format, comment, creation, modification) "
         "is updated per successful call and compared with an independent parse of the real file after every call; blocks are also "
-        "read back through get_block and compared with what was stored; non-trivial as C03")
+        "read back through get_block and compared with what was stored; 30 % of the blocks handed over are the OBJECT handed over last time "
+        "for that type, unchanged or edited in place in between; non-trivial as C03")
 ASSUMPTIONS = ["dates compared to the second; last-access dates are not part of the property"]
 KIND_OF_TYPE = {v: k for k, v in A.BLOCKTYPE.items()}
 
@@ -29,7 +30,11 @@ def expected_after(exp, s):
         else:
             comment = exp[t][2] if t in exp else C.DEFAULT_COMMENT
         exp.pop(t, None)     # a replaced block moves to the end of the table; position is not part of C04
-        exp[t] = (A.encode(blk), blk.format.value, comment, C.ts(blk.creation_date), C.ts(blk.last_modification_date), s.get("spec"))
+        arg = s.get("arg")       # the block as it was when it was handed over (the object may have been edited and reused since)
+        if arg is not None and isinstance(arg[3], (bytes, bytearray)):
+            exp[t] = (bytes(arg[3]), arg[1], comment, arg[4], arg[5], s.get("spec"))
+        else:
+            exp[t] = (A.encode(blk), blk.format.value, comment, C.ts(blk.creation_date), C.ts(blk.last_modification_date), s.get("spec"))
 
 
 def judge(ctx, r):
